@@ -109,6 +109,16 @@ WarnIffDropped == pc = "done" => (warn[1] = (\E i \in 1..Len(S) : ~S[i][3]) /\ w
 SearchInv == pc = "search" =>
      /\ Feasible(D, bdist)
      /\ \A c \in Entries(D) : (c < bdist /\ c \notin {ds[i] : i \in 1..Len(ds)}) => ~Feasible(D, c)
+\* C07 at the level of the definition: symmetry, triangle through any third small diagram, and invariance under an added diagonal
+\* point and under translation along the diagonal (theorems of the definition; they guard the specification itself)
+XY(X) == [q \in 1..Len(X) |-> <<X[q][1], X[q][2]>>]
+LawsOnDefinition == pc = "done" =>
+     LET X == XY(FinPts(S)) Y == XY(FinPts(T)) IN
+     /\ BottleneckDef(X, Y) = BottleneckDef(Y, X)
+     /\ \A Z \in {<<>>, << <<0, B>> >>, << <<0, 1>>, <<1, B>> >>} : BottleneckDef(X, Y) <= BottleneckDef(X, Z) + BottleneckDef(Z, Y)
+     /\ BottleneckDef(Append(X, <<1, 1>>), Y) = BottleneckDef(X, Y)
+     /\ BottleneckDef([q \in 1..Len(X) |-> <<X[q][1] + 3, X[q][2] + 3>>], [q \in 1..Len(Y) |-> <<Y[q][1] + 3, Y[q][2] + 3>>]) = BottleneckDef(X, Y)
+     /\ (Y = <<>> => BottleneckDef(X, Y) = Max({0} \cup {X[q][2] - X[q][1] : q \in 1..Len(X)}))
 \* C06: any matching the routine can return is a certificate
 Certifies(X, Y, rws, dist) ==
      /\ \A i \in 0..(Len(X) - 1) : Cardinality({r \in 1..Len(rws) : rws[r][1] = i}) = 1
